@@ -254,6 +254,36 @@ func zeroSizeSig(t *sigT) bool {
 }
 
 // enc.reflect <sighex> <tokens…>: the repository's reflection encoder on the Go value
+type failingWriter struct{}
+
+func (failingWriter) Write(p []byte) (int, error) { return 0, fmt.Errorf("the writer fails") }
+
+// enc.fail nil|writer: an Encode that does not succeed — a struct whose dynamic member is nil (refused after the
+// members before it have been serialised), or a destination that fails.  What the next Encode writes must not depend on it.
+func execEncFail(a []string) string {
+	var err error
+	switch a[0] {
+	case "nil":
+		var b bytes.Buffer
+		err = encoding.NewEncoder(encoding.DefaultCap(), &b).Encode(struct {
+			A uint32
+			S string
+			B value.Value
+		}{0xdeadbeef, "left-over", nil})
+	case "writer":
+		err = encoding.NewEncoder(encoding.DefaultCap(), failingWriter{}).Encode(struct {
+			A uint32
+			S string
+		}{0xcafebabe, "left-over"})
+	default:
+		return "bad-op"
+	}
+	if err != nil {
+		return "err"
+	}
+	return "ok"
+}
+
 func execEncReflect(a []string) string {
 	t := parseSigT(string(unhx(a[0])))
 	v, _ := parseTValTokens(a[1:])
@@ -289,6 +319,7 @@ func init() {
 	executors["val.read"] = execValRead
 	executors["enc.spec"] = execEncSpec
 	executors["enc.reflect"] = execEncReflect
+	executors["enc.fail"] = execEncFail
 	executors["dec.reflect"] = execDecReflect
 	runners["C02"] = runC02
 	runners["C03"] = runC03
@@ -544,6 +575,11 @@ func c03Case(r *Rand, o *Out, t *sigT) { c03CaseV(r, o, t, genTVal(r, t, 2)) }
 
 func c03CaseV(r *Rand, o *Out, t *sigT, v *tval) {
 	sig := t.String()
+	if r.Chance(4) {
+		// an Encode that fails, in front of this one
+		o.Do("P", "enc.fail "+[]string{"nil", "writer"}[r.Intn(2)], true)
+		o.Count("case:after-a-failed-encode")
+	}
 	enc := encD(t, v)
 	o.Count("shape:" + sigShape(t))
 	// 1. reflection encoder = documented layout
